@@ -489,7 +489,7 @@ Proof. reflexivity. Qed.
   Lemma txt_tail_delim d rest : delim_ok (txt_tail d ++ 41 :: rest).
   Proof.
     destruct d; try (left; reflexivity).
-    right; reflexivity.
+    right; left; reflexivity.
   Qed.
 
   Lemma Tl_cons first a d' : P a -> Tl false d' -> Tl first (Cons a d').
@@ -527,7 +527,7 @@ Proof. reflexivity. Qed.
     rewrite (pbind_eq _ _ _ _ _ (liftR_ok _ r0 D _ _ E12)).
     change (lone_dot (Some 32)) with true. cbv iota.
     destruct acc as [|x acc]; [exfalso; apply (Hacc Hc Hn); reflexivity|].
-    destruct (HPd f r2 D [32] (41 :: rest) (or_intror eq_refl) Hok HD HD' ltac:(unfold K; lia) Ha2 (or_intror eq_refl))
+    destruct (HPd f r2 D [32] (41 :: rest) (or_intror eq_refl) Hok HD HD' ltac:(unfold K; lia) Ha2 (or_intror (or_introl eq_refl)))
       as (r3 & E3 & Ha3 & Hk3).
     rewrite (pbind_eq _ _ _ _ _ E3).
     destruct (ws_here f r3 41 rest ltac:(lia) Ha3 close_starts_datum) as (r4 & E4 & Ha4 & Hp4 & Hk4).
@@ -585,7 +585,7 @@ Proof. reflexivity. Qed.
   Proof. reflexivity. Qed.
 
   Lemma vec_rest_delim l rest : delim_ok (vec_elems false l ++ 41 :: rest).
-  Proof. destruct l; [right|left]; reflexivity. Qed.
+  Proof. destruct l; [right; left|left]; reflexivity. Qed.
 
   Lemma Vl l : Forall P l -> forall first fuel r D acc rest, all_rt_ok l ->
     N.of_nat (list_max (map rdepth l)) < D -> D <= 128 ->
